@@ -35,7 +35,16 @@ fn amount(q: &ScaledQuantity, u: &(Vec<String>, PhysicalQuantity, f64, f64)) -> 
 
 fn check(c: &Case, units: &UnitView, st: &mut Stats) -> Verdict {
     let m = build(&c.raw, false);
-    let (src, _) = print_recipe(&m, &c.raw.tape);
+    let (mut src, _) = print_recipe(&m, &c.raw.tape);
+    // ingredients that are other recipes (by path or by modifier) carry quantities like any other
+    if c.imperial || c.factor_bits.is_some() {
+        src = src.replace("\r\n", "\n");
+        if !src.ends_with('\n') {
+            src.push('\n');
+        }
+        src.push_str("\nServe with @./sauces/hollandaise{150%g}, @../basics/stock{1-2%cups}, @@pesto{2%tbsp} and @./x/y{some%kg}.\n");
+        st.class("with recipe-reference ingredients");
+    }
     let Some(r) = EXTENDED.parse(&src).into_output() else {
         st.exclude("no output");
         return Ok(());
